@@ -180,11 +180,24 @@ def check_files(case):
             from rx.subject import Subject
             src = Subject()
             f2 = os.path.join(d, 'y.json')
-            w = drive.collect(src.pipe(rjson.dump_to_file(f, compression=comp, encoding=enc)))
+            # the first file is read back FROM the completion callback of its dump: when completion is signalled the file is written
+            inside = []
+            w = drive.Result()
+
+            def done():
+                w.completed += 1
+                inside.append(drive.collect(rjson.load_from_file(f, compression=comp, encoding=enc)) if os.path.exists(f) else None)
+            src.pipe(rjson.dump_to_file(f, compression=comp, encoding=enc)).subscribe(
+                on_next=w.items.append, on_error=lambda e: setattr(w, 'error', e), on_completed=done)
             w2 = drive.collect(src.pipe(rjson.dump_to_file(f2, compression=comp, encoding=enc)))
             for it in items:
                 src.on_next(it)
             src.on_completed()
+            if w.completed == 1 and w.error is None:
+                if inside[0] is None:
+                    raise Violation('json.dump_to_file signalled completion before the file existed', **ctx)
+                H.require_clean(inside[0], 'load_from_file called from the completion callback of dump_to_file', **ctx)
+                compare(items, inside[0].items, ctx)
             H.require_clean(w2, 'second dump_to_file on the same source', **ctx)
             r2 = drive.collect(rjson.load_from_file(f2, compression=comp, encoding=enc)) if os.path.exists(f2) else None
             if r2 is None:
